@@ -192,10 +192,10 @@ def rand_bad(rng):
 
 
 def scenario(rng, sid, tier, clean=False):
-    """clean=True: stay inside the classes for which the pinned proxy is expected to meet the
-    statement (no bracketed IPv6 literal without port, pipelining only towards a literal host with
-    a listening origin, no malformed request after a forwarded one, clients strictly one after the
-    other); clean=False: everything."""
+    """clean=True: the plain classes only (no bracketed IPv6 literal without port, pipelining only
+    towards a literal host with a listening origin, no malformed request after a forwarded one,
+    clients strictly one after the other) — the classes the pinned tree already handled;
+    clean=False: everything (the classes of the repaired defects F26a-g included)."""
     s = Scn(sid)
     mtu = rng.choice([None, None, None, 100, 41, 1475, 500])
     world(s, rng, mtu=mtu)
@@ -292,4 +292,4 @@ def scenario(rng, sid, tier, clean=False):
 def generate(seed, tier):
     rng = random.Random(seed * 1000003 % (2**31) + 18)
     n = 240 if tier == "quick" else 6000
-    return [scenario(rng, "g%d" % i, tier, clean=(i % 2 == 0)) for i in range(n)]
+    return [scenario(rng, "g%d" % i, tier, clean=(i % 4 == 0)) for i in range(n)]
